@@ -277,11 +277,22 @@ def _fields(fmt, lines):
                 continue
         elif s and not s.startswith("#"):
             if block == "ATOM":
-                out += [(i, 2, "num"), (i, 3, "num"), (i, 4, "num"), (i, 5, "atype"), (i, 8, "charge")]
+                out += [(i, 2, "num"), (i, 3, "num"), (i, 4, "num"), (i, 5, "atype"), (i, 8, "charge"), (i, 0, "serial")]
             elif block == "BOND":
-                out += [(i, 1, "bint"), (i, 2, "bint"), (i, 3, "btype")]
+                out += [(i, 1, "bint"), (i, 2, "bint"), (i, 3, "btype"), (i, 0, "serial")]
         i += 1
     return out
+
+
+_SYMS = []
+
+
+def _element_symbols():
+    if not _SYMS:
+        import molli as ml
+
+        _SYMS.extend(ml.Element.__members__.keys())
+    return _SYMS
 
 
 def apply_fault(fmt, text, fault):
@@ -293,8 +304,21 @@ def apply_fault(fmt, text, fault):
     elif kind == "dup":
         for k in sorted({f % len(lines) for f in fault[1]}, reverse=True):
             lines.insert(k, lines[k])
+    elif kind == "renumber":
+        # the serial number of one ATOM / BOND record becomes a neighbouring, equally valid number (5 -> 4 or 6): either the reader
+        # notices, or (it ignores the column) the molecule is the same as before - never another molecule
+        fl = [f for f in _fields(fmt, lines) if f[0] < len(lines) and f[2] == "serial"]
+        if not fl:
+            return None
+        li, ti, fk = fl[fault[1] % len(fl)]
+        toks = lines[li].split()
+        try:
+            toks[0] = str(max(0, int(toks[0]) + (1 if fault[2] % 2 else -1)))
+        except (ValueError, IndexError):
+            return None
+        lines[li] = " ".join(toks)
     elif kind in ("tok_bad", "tok_del", "tok_ins"):
-        fl = [f for f in _fields(fmt, lines) if f[0] < len(lines)]
+        fl = [f for f in _fields(fmt, lines) if f[0] < len(lines) and f[2] != "serial"]
         if not fl:
             return None
         li, ti, fk = fl[fault[1] % len(fl)]
@@ -305,6 +329,11 @@ def apply_fault(fmt, text, fault):
             return None   # bond lines and the end of atom lines have optional trailing fields: an inserted token yields another well-formed line
         if kind == "tok_bad":
             bad = (TYPE_BAD if fk in ("atype", "btype", "symbol") else NUMERIC_BAD)[fault[2] % (len(TYPE_BAD) if fk in ("atype", "btype", "symbol") else len(NUMERIC_BAD))]
+            if fk == "symbol" and len(toks[ti]) == 2 and fault[2] % 3 == 0:
+                # a two-letter symbol whose LAST letter is damaged (Cl -> Cx): not an element, although its first letter is one
+                cand = toks[ti][0] + "x"
+                if cand.capitalize() not in _element_symbols():
+                    bad = cand
             toks[ti] = bad
         elif kind == "tok_del":
             del toks[ti]
@@ -375,7 +404,7 @@ def strat_faults(tier):
     fault = st.one_of(
         st.tuples(st.just("del"), st.lists(i, min_size=1, max_size=2)).map(list),
         st.tuples(st.just("dup"), st.lists(i, min_size=1, max_size=2)).map(list),
-        st.tuples(st.sampled_from(["tok_bad", "tok_del", "tok_ins"]), i, i).map(list),
+        st.tuples(st.sampled_from(["tok_bad", "tok_bad", "tok_del", "tok_ins", "renumber"]), i, i).map(list),
     )
     return st.fixed_dictionaries({"src": _srcs(tier), "faults": st.lists(fault, min_size=8, max_size=20)})
 
@@ -456,6 +485,6 @@ LEGS = [
     Leg("trunc_gen", check_trunc, classify, strategy=strat_trunc, n={"quick": 150, "thorough": 3000}, shards={"quick": 16, "thorough": 32},
         rule="generated multi-molecule files (2-5 molecules that differ in atom and bond counts), same exhaustive truncation per file"),
     Leg("faults", check_faults, classify, strategy=strat_faults, n={"quick": 400, "thorough": 10000}, shards={"quick": 16, "thorough": 32},
-        rule="per file 8-20 random faults: single/double line deletion or duplication, token made invalid for its field (non-numeric text in numeric fields, unknown type names), token deletion / insertion; "
+        rule="per file 8-20 random faults: single/double line deletion or duplication, token made invalid for its field (non-numeric text in numeric fields, unknown type names), token deletion / insertion, a record's serial number changed to a neighbouring one, the last letter of a two-letter element symbol damaged; "
              "non-trivial = at least one molecule header survives in the damaged text"),
 ]
